@@ -6,12 +6,19 @@ import RpmVerif.Spec.RpmValid
   `decide (PackageValid …)` (Spec/RpmValid.lean); on failure the first violated rule is named.
 * `validfile <package bytes> [then=ops]` — an rpm-built asset package, possibly after a sign / clear history:
   `decide (ForeignValid …)` (header rules in full; archive-vs-header restricted to what rpm guarantees).
+* `validhand09 <kind> [then=ops]` — C10's hand-made start packages (a built package whose main header was edited by hand: `latin1`,
+  `noncanon`, `swapped`, `extratag`) and `gap` (slack bytes between two data items), after a sign / clear history
+  (`ok start=<hex> pkg=<hex> arch=<hex>`): when the START is `ForeignValid` the result must be (`C09.history_foreign_valid`); a start
+  that breaks a rule itself is outside the property (`dontcare`, the rule is named in the branch label).
+A package that uses one of the four content features (TildeInVersions, CaretInVersions, RichDependencies, ScriptletInterpreterArgs)
+without declaring it fails with its own class (`rpmlib-tilde`, `rpmlib-caret`, `rpmlib-rich`, `rpmlib-interp-args`), reported only when
+no other rule is broken; the branch label says which of them the CONFIGURATION uses (`cf-…`) and whether the caller declared them.
 The model does not predict the bytes (that is C06's job): its observation is `*` whenever a package was
 emitted; it predicts that every generated configuration IS emitted (`ok`), so an `err` is a disagreement. -/
 namespace RpmVerif.Driver.C09
 open RpmVerif.Hdr RpmVerif.Bld RpmVerif.Driver RpmVerif.Driver.Bld RpmVerif.RpmValid
 
-def ops : List String := ["valid", "validfile", "validpad"]
+def ops : List String := ["valid", "validfile", "validpad", "validhand09"]
 
 def implField (impl : String) (k : String) : Option String :=
   (impl.splitOn " ").findSome? fun t => if t.startsWith (k ++ "=") then some (t.drop (k.length + 1)).toString else none
@@ -53,6 +60,18 @@ def compName : Comp → String
 /-- do all destinations satisfy the hypothesis of `payload_valid`: cpio path = "." ++ dir ++ base name -/
 def normalised (c : Cfg) : Bool := c.files.all fun f => f.cpioPath == [46] ++ (f.dir ++ f.baseName)
 
+/-- which of the four content features a configuration uses (read off the request, not off the emitted bytes), and whether the
+caller wrote a `rpmlib(…)` requirement himself -/
+def contentLabel (c : Cfg) : String :=
+  let deps := c.provides ++ c.requires ++ c.obsoletes ++ c.conflicts ++ c.recommends ++ c.suggests ++ c.enhances ++ c.supplements
+  let has (ch : UInt8) : Bool := c.version.contains ch || deps.any fun d => d.version.contains ch
+  let rich := (c.requires ++ c.recommends ++ c.suggests ++ c.supplements ++ c.enhances ++ c.conflicts).any fun d => d.name.head? == some 40
+  let args := [c.preIn, c.postIn, c.preUn, c.postUn, c.verify, c.preTrans, c.postTrans, c.preUntrans, c.postUntrans].any fun s =>
+    match s with | some ⟨_, _, some p⟩ => decide (1 < p.length) | _ => false
+  let own := c.requires.any fun d => (d.name.take 7 == [114, 112, 109, 108, 105, 98, 40])
+  let l := (if has 126 then "t" else "") ++ (if has 94 then "c" else "") ++ (if rich then "r" else "") ++ (if args then "a" else "")
+  (if l == "" then "cf0" else "cf-" ++ l) ++ (if own then "-own" else "")
+
 def historyLabel (args : List String) : String :=
   let s := (kv args "sign").map (fun _ => "signed") |>.getD "built"
   match kv args "then" with
@@ -65,6 +84,15 @@ def handle (op : String) (args : List String) (impl : String) : String :=
     -- be structurally valid whatever the length; the model does not predict the bytes (`*`)
     if !impl.startsWith "ok " then answer "ok" "fails:signer-output-refused" "padsig-refused"
     else answer "*" (judge false ((implField impl "pkg").getD "") ((implField impl "arch").getD "")) "padsig"
+  else if op == "validhand09" then
+    let kind := args.headD "?"
+    let label := "hand-" ++ kind ++ "-" ++ ((kv args "then").getD "asis")
+    if !impl.startsWith "ok " then answer "ok" "dontcare" (label ++ "-unreadable")
+    else
+      let arch := (implField impl "arch").getD ""
+      let start := judge true ((implField impl "start").getD "") arch
+      if start != "holds" then answer "*" "dontcare" (label ++ "-start-" ++ (start.drop 6).toString)
+      else answer "*" (judge true ((implField impl "pkg").getD "") arch) label
   else if op == "validfile" then
     let label := "asset-" ++ ((kv args "then").getD "asis")
     if !impl.startsWith "ok " then answer "ok" "dontcare" (label ++ "-unreadable")
@@ -74,7 +102,7 @@ def handle (op : String) (args : List String) (impl : String) : String :=
     | none => badReq "cfg"
     | some r =>
       let c := r.cfg
-      let label := s!"{historyLabel args}-{compName c.compression}-{if usesLargeFiles c then "large" else "std"}-n{min c.files.length 3}-{if normalised c then "norm" else "odd"}"
+      let label := s!"{historyLabel args}-{compName c.compression}-{if usesLargeFiles c then "large" else "std"}-n{min c.files.length 3}-{if normalised c then "norm" else "odd"}-{contentLabel c}"
       -- `feat=nobz`: rpm-rs built without bzip2 support refuses that type (`UnsupportedCompressorType`); were a
       -- package emitted nevertheless, the validator below judges it like any other
       let nobz := kv args "feat" == some "nobz"
